@@ -82,7 +82,7 @@ func rawRecords(w *world.World) map[string][]byte {
 }
 
 func newEnv(seed int64, sw bool, flow string) (*env, error) {
-	w, err := world.New(world.Config{Seed: seed, StorageWrapper: sw, NodeIdLoader: false})
+	w, err := world.New(world.Config{Seed: seed, StorageWrapper: sw, NodeIdLoader: flow == "serverCertsNodeId"})
 	if err != nil {
 		return nil, err
 	}
@@ -250,7 +250,7 @@ func (e *env) prepare(flow string) (func() outcome, error) {
 				return lerr == nil
 			}}
 		}, nil
-	case "serverCerts":
+	case "serverCerts", "serverCertsNodeId", "serverCertsAgain":
 		req0, _ := w.BuildFetch(world.FetchSpec{K: "k1", E: "e1", Nonce: "n1"})
 		if _, err := registration.AuthorizeNode(ctx, w.Store, req0, so()...); err != nil {
 			return nil, err
@@ -258,11 +258,42 @@ func (e *env) prepare(flow string) (func() outcome, error) {
 		ck := w.EnsureCertKey("k1")
 		nonce := []byte("0123456789abcdef0123456789abcdef")
 		greq := &types.GenerateServerCertificatesRequest{CertificatePublicKeyPkix: ck.Pkix, Nonce: nonce, NonceSignature: signEd(ck, nonce)}
+		if flow == "serverCertsNodeId" {
+			// the storage looks records up by node id and the node reports its node id: the lookup goes by node id
+			ni, err := types.LoadNodeInformation(ctx, w.Inner, keyId, so()...)
+			if err != nil {
+				return nil, err
+			}
+			ni.NodeId = "N1"
+			if err := ni.Store(ctx, w.Inner, so()...); err != nil {
+				return nil, err
+			}
+			greq.NodeId = "N1"
+		}
+		if flow == "serverCertsAgain" {
+			// the same server process has already served this node once, fault-free
+			if _, err := nodetls.GenerateServerCertificates(ctx, e.store, greq, so()...); err != nil {
+				return nil, err
+			}
+			// ... and the operator has since replaced both roots
+			if _, err := rotation.RotateRootCertificates(ctx, w.Store, so(nodeenrollment.WithReinitializeRoots(true))...); err != nil {
+				return nil, err
+			}
+		}
 		return func() outcome {
 			resp, err := nodetls.GenerateServerCertificates(ctx, e.store, greq, so()...)
 			return outcome{err: err, handed: resp != nil && (len(resp.CertificateBundles) > 0 || len(resp.CertificatePrivateKeyPkcs8) > 0), persisted: func() bool {
-				_, lerr := types.LoadRootCertificates(ctx, w.Inner, so()...)
-				return lerr == nil
+				// what is handed out is reflected in storage when every issuing certificate is a root storage holds now
+				roots, lerr := types.LoadRootCertificates(ctx, w.Inner, so()...)
+				if lerr != nil || resp == nil {
+					return false
+				}
+				for _, b := range resp.CertificateBundles {
+					if !bytes.Equal(b.CaCertificateDer, roots.Current.CertificateDer) && !bytes.Equal(b.CaCertificateDer, roots.Next.CertificateDer) {
+						return false
+					}
+				}
+				return true
 			}}
 		}, nil
 	case "nodeNew":
